@@ -100,7 +100,9 @@ impl Monitor for C04 {
                     out.count("c04.index_updates_rebonding");
                     // "raises the stSei rate": the re-bonded coins must end up backing stSei, i.e. the pool grows (by how
                     // much exactly is C19's clause) and the rate does not fall (judged above)
-                    if post.pool_s <= pre.pool_s {
+                    // (a batch closed in the same transaction takes its stSei requests' value out of the pool)
+                    let (_, cs) = crate::monitors::c03::closed_in_step(pre, post);
+                    if post.pool_s + cs <= pre.pool_s {
                         out.violation(P, "rebond_raises_stsei_rate", format!("{} usei were re-bonded but the stSei pool went {} -> {} (bSei pool {} -> {})", rebond, pre.pool_s, post.pool_s, pre.pool_b, post.pool_b));
                     }
                 }
